@@ -1154,6 +1154,19 @@ def prefixscan_blelloch(func, preop, binop, x, axis=None, dtype=None, out=None):
     return handle_out(out, result)
 
 
+def _cumreduction_carry(binop, extra, block, axis):
+    """Running total carried into the next block of a sequential cumreduction
+
+    ``block`` is the already accumulated previous block; its last element along
+    the scan axis is merged into ``extra``. A zero-length block contributes
+    nothing, so the running total is passed on unchanged.
+    """
+    if block.shape[axis] == 0:
+        return extra
+    slc = (slice(None),) * axis + (slice(-1, None),)
+    return binop(extra, block[slc])
+
+
 def cumreduction(
     func,
     binop,
@@ -1240,8 +1253,6 @@ def cumreduction(
 
     name = f"{func.__name__}-{tokenize(func, axis, binop, ident, x, dtype)}"
     n = x.numblocks[axis]
-    full = slice(None, None, None)
-    slc = (full,) * axis + (slice(-1, None),) + (full,) * (x.ndim - axis - 1)
 
     indices = list(
         product(*[range(nb) if i != axis else [0] for i, nb in enumerate(x.numblocks)])
@@ -1267,9 +1278,11 @@ def cumreduction(
         for old, ind in zip(last_indices, indices):
             this_slice = (name, "extra") + ind
             dsk[this_slice] = (
+                _cumreduction_carry,
                 binop,
                 (name, "extra") + old,
-                (operator.getitem, (m.name,) + old, slc),
+                (m.name,) + old,
+                axis,
             )
             dsk[(name,) + ind] = (binop, this_slice, (m.name,) + ind)
 
